@@ -89,6 +89,7 @@ FOREIGN_ENUMS = {
     'std::option::Option': {'None': 0, 'Some': 1},
     'std::cmp::Ordering': {'Less': 255, 'Equal': 0, 'Greater': 1},  # i8 discriminants as switchInt sees them
     'std::result::Result': {'Ok': 0, 'Err': 1},
+    'std::ops::ControlFlow': {'Continue': 0, 'Break': 1},
 }
 
 
@@ -227,7 +228,7 @@ class Explorer:
                     if any(e['k'] == 'deref' for e in t['dest']['p']):
                         fs = [e for e in t['dest']['p'] if e['k'] == 'field']
                         fields.add(fs[-1]['name'] if fs and fs[-1]['name'] is not None else None)
-                    if re.match(r'^(std::option::Option::<T>::take|std::mem::replace|std::mem::swap)$', cn):
+                    if re.match(r'^(std::option::Option::<T>::take|std::mem::replace|std::mem::swap|std::mem::take)$', cn):
                         fields.add(())        # writes whole slots
                         continue
                     if t['callee'].get('trait') in ('std::cmp::PartialEq', 'std::cmp::PartialOrd'):
@@ -621,6 +622,13 @@ class Explorer:
                 self.store(st, loc, NONE)
                 self._note_store(st, fr, b, t, loc, NONE)
                 handled = True
+            elif re.match(r'^std::mem::take$', name) and len(args) == 1 and \
+                    str((t['callee'].get('args') or [''])[0]).startswith('std::option::Option<'):
+                loc = self.ptr_loc(args[0])
+                ret = self.load(st, fr, loc)
+                self.store(st, loc, NONE)
+                self._note_store(st, fr, b, t, loc, NONE)
+                handled = True
             elif re.match(r'^std::mem::replace$', name) and len(args) == 2:
                 loc = self.ptr_loc(args[0])
                 ret = self.load(st, fr, loc)
@@ -648,6 +656,8 @@ class Explorer:
                 a0 = strip_upd(args[0])
                 if a0[0] == 'agg' and a0[1] == 'adt' and a0[2] == 'Some' and a0[5].endswith('Option') and a0[4]:
                     ret, pure = a0[4][0], True
+            elif re.match(r'^<std::option::Option<T> as std::ops::FromResidual<std::option::Option<std::convert::Infallible>>>::from_residual$', name):
+                ret, pure = NONE, True
             elif re.match(r'^std::option::Option::<T>::unwrap_or$', name) and len(args) == 2:
                 a0 = strip_upd(args[0])
                 if a0[0] == 'agg' and a0[1] == 'adt' and a0[5].endswith('Option'):
@@ -812,6 +822,16 @@ class Explorer:
 
     OPTION_COMBINATORS = re.compile(r'^std::option::Option::<T>::(map|map_or|and_then|is_some_and|is_none_or)$')
 
+    def option_try(self, st, fr, t):
+        """`opt?`: <Option<T> as Try>::branch(opt) -> the option value, else None"""
+        from facts import callee_name
+        if t.get('target') is None:
+            return None
+        name = callee_name(t)
+        if not re.match(r'^<std::option::Option<T> as std::ops::Try>::branch$', name) or len(t['args']) != 1:
+            return None
+        return self.operand(st, fr, t['args'][0])
+
     def option_combinator(self, st, fr, t):
         """Option::map / map_or / and_then / is_some_and / is_none_or applied with a closure of this crate that captures nothing
         (or takes its environment by value): (kind, option value, closure value, closure body, default, callee name)"""
@@ -909,6 +929,37 @@ class Explorer:
             elif k == 'assert':
                 self.record_assert(st, fr, b, t)
                 b = t['target']
+            elif k == 'call' and self.option_try(st, fr, t) is not None:
+                opt = self.option_try(st, fr, t)
+                from facts import callee_name
+                dest, target = t['dest'], t['target']
+                st.path.events.append({'k': 'call', 'callee': callee_name(t), 'decl': callee_name(t), 'args': (opt,), 'bb': b, 'line': t['line'],
+                                       'epoch': st.epoch, 'term': t, 'exp': t.get('exp', False), 'depth': fr.depth, 'in': body.id,
+                                       'inlined': True, 'expanded': True, 'pure': True, 'ret': ('c', ('zst', 'expanded'))})
+                o = strip_upd(simplify(subst(opt, st.path.conds)))
+                if o[0] == 'agg' and o[1] == 'adt' and o[5].endswith('Option'):
+                    cases = [(o[2], None)]
+                else:
+                    dv = simplify(subst(('discr', opt), st.path.conds))
+                    if is_const(dv):
+                        cases = [('Some' if int(dv[1]) == 1 else 'None', None)]
+                    else:
+                        cases = [('None', ('eq', 0)), ('Some', ('eq', 1))]
+                for i, (variant, cond) in enumerate(cases):
+                    s2 = st.fork() if i < len(cases) - 1 else st
+                    if cond is not None:
+                        dvv = ('discr', opt)
+                        for (vv, cc) in normalise_cond(dvv, cond):
+                            s2.path.conds.append((vv, cc))
+                        s2.path.events.append({'k': 'branch', 'val': dvv, 'cond': cond, 'bb': b, 'line': t['line'], 'depth': fr.depth})
+                    if variant == 'None':
+                        val = ('agg', 'adt', 'Break', ('0',), (NONE,), 'std::ops::ControlFlow')
+                    else:
+                        payload = o[4][0] if (o[0] == 'agg' and o[2] == 'Some' and o[4]) else simplify(('field', ('variant', opt, 'Some'), '0'))
+                        val = ('agg', 'adt', 'Continue', ('0',), (payload,), 'std::ops::ControlFlow')
+                    self.store(s2, self.loc_of(s2, fr, dest), val)
+                    self._run(s2, target, fr, cont)
+                return
             elif k == 'call' and self.option_combinator(st, fr, t) is not None:
                 kind, opt, cval, ccb, default, cname = self.option_combinator(st, fr, t)
                 dest, target = t['dest'], t['target']
